@@ -174,6 +174,58 @@ def main():
                 c.nontriv("h-eval:%s:%s" % (r["id"].split(":")[1], r["res"]))
     c.sample({"history": hs[0]["calls"], "model": hs[0]["build"]})
 
+    # (3b) the same kind of histories on 2 and 3 MPI ranks (all ranks make the same calls; bulk computations are distributed, split and unsplit):
+    #      the events recorded on EVERY rank must be a behaviour of Container4.tla, with every evaluated value equal to the direct object's
+    for nranks in ((2, 3) if not thorough else (2, 3, 5)):
+        rh = []
+        for h in range(6 if not thorough else 24):
+            m = dict(bigs[h % len(bigs)])
+            modes = [v for k, v in nm.items() if m["id"].startswith(k)][0]
+            calls = random_history(rng, modes, 8)
+            # make sure a distributed bulk computation over an odd number of stored components is part of the history
+            extra = [[rng.randrange(modes) for _ in range(4)] for _ in range(3)]
+            # every element in the map is prepared before a bulk computation: an unprepared one makes compute() throw on the rank that owns it
+            # only, which (legitimately, outside the property) leaves the other ranks waiting in a collective
+            body = []
+            for cl in calls[:6]:
+                body.append(cl)
+                if cl[0] in ("Lookup", "Eval"):            # both create the element on demand
+                    body.append(["PrepareElem", cl[1]])
+            tail = []
+            for q in extra:
+                tail += [["Lookup", q], ["PrepareElem", q]]
+            calls = [["PrepareAll", extra]] + body + tail + [["ComputeAll", True], ["Eval", extra[0]], ["Eval", extra[1]], ["ComputeAll", False], ["Eval", extra[2]]]
+            m.update({"kind": "container4", "id": "np%d:h%d:%s" % (nranks, h, m["id"]), "beta": "2.0", "triples": TRIPLES, "calls": calls})
+            rh.append(m)
+        per, done, rc, err = pv.run_driver_ranks(exe, rh, nranks, timeout=900)
+        if min(done) < len(rh):
+            k = min(done)
+            c.violation("%d ranks: container history %s did not complete (rc=%s): %s" % (nranks, rh[min(k, len(rh) - 1)]["id"], rc, err[-300:].replace("\n", " | ")),
+                        dict(rh[min(k, len(rh) - 1)], ranks=nranks), cls="ranks:termination")
+        for rank in range(nranks):
+            lines = [r for r in per[rank] if r.get("e") in ("Begin", "Call", "End")]
+            pos, guard = 0, 0
+            while pos < len(lines) and guard < 12:
+                guard += 1
+                v = pv.validate_trace("ContainerTrace", "ContainerTrace", lines[pos:], "C13/rank%d-%d" % (rank, guard % 3), timeout=1500)
+                pv.tlc_or_die(v.res, "ContainerTrace")
+                c.states += v.res.distinct
+                c.transitions += v.res.generated
+                if v.accepted:
+                    break
+                bad = lines[pos + v.matched]
+                ident = bad.get("id")
+                hh = [h for h in rh if h["id"] == ident]
+                c.violation("%d ranks, rank %d: trace of %s rejected at step %s %s: observed res=%s agrees=%s" % (nranks, rank, ident, bad.get("step"), json.dumps(bad.get("act")), bad.get("res"), bad.get("agrees")),
+                            {"scenario": hh[0] if hh else None, "ranks": nranks, "rank": rank, "rejected_event": {k: bad[k] for k in bad if k not in ("em", "nt", "el")}}, cls="ranks:" + bad.get("act", ["trace"])[0])
+                nxt = pos + v.matched
+                while nxt < len(lines) and not (lines[nxt].get("e") == "Begin" and lines[nxt].get("id") != ident):
+                    nxt += 1
+                pos = nxt
+            c.traces += len([r for r in per[rank] if r.get("e") == "End"])
+            c.nontriv("np%d rank %d container histories" % (nranks, rank))
+        c.extra.setdefault("rank_tier", []).append({"ranks": nranks, "histories": len(rh)})
+
     # (4) the two exchange symmetries on directly constructed objects
     ms = [models.dimer(), models.spinflip_atom(), models.spinless_chain(3)]
     tri = [[a, b, d] for a in (-1, 0, 1) for b in (-1, 0, 1) for d in (-1, 0, 1)]
